@@ -162,7 +162,7 @@ func armPaths(p *Program, fn *ssa.Function, start *ssa.BasicBlock, stop map[*ssa
 				if strings.HasPrefix(t, "plugin.writeStanza") {
 					end = "return-write-error"
 				}
-				if strings.Contains(t, "readStanza") {
+				if strings.HasPrefix(t, "(*plugin.ClientUI).readStanza(") && strings.HasSuffix(t, ").1") {
 					end = "return-read-error"
 				}
 				if strings.HasPrefix(t, "(*plugin.ClientUI).handle(") {
@@ -190,6 +190,27 @@ func armPaths(p *Program, fn *ssa.Function, start *ssa.BasicBlock, stop map[*ssa
 		sort.Strings(res[arm])
 	}
 	return res
+}
+
+var armTestRe = regexp.MustCompile(`\(Field\(P3\.Type\) == ("[^"]*")\)`)
+
+// underArm: inside the arm of command a, a comparison of the command's type with a constant has
+// a known value (RequestValue(.., s.Type == "request-secret") is RequestValue(.., true) there).
+func underArm(keys []string, arm string) []string {
+	if keys == nil {
+		return nil
+	}
+	out := make([]string, len(keys))
+	for i, k := range keys {
+		out[i] = armTestRe.ReplaceAllStringFunc(k, func(m string) string {
+			sub := armTestRe.FindStringSubmatch(m)
+			if strings.Trim(sub[1], `"`) == arm {
+				return "true"
+			}
+			return "false"
+		})
+	}
+	return out
 }
 
 var constMergeRe = regexp.MustCompile(`Phi\(("[^"]*"(?:, "[^"]*")+)\)`)
@@ -351,7 +372,7 @@ func runC16(p *Program, r *Result) {
 		}
 		sort.Strings(names)
 		for _, a := range names {
-			g, w := strings.Join(expandConstMerges(got[a]), " | "), strings.Join(expandConstMerges(want[a]), " | ")
+			g, w := strings.Join(expandConstMerges(underArm(got[a], a)), " | "), strings.Join(expandConstMerges(underArm(want[a], a)), " | ")
 			switch {
 			case want[a] == nil:
 				r.Bad(fn.String(), "arm:"+a, "", "the client handles command \""+a+"\", which the protocol table does not list: "+g)
@@ -566,9 +587,9 @@ func runC16(p *Program, r *Result) {
 
 // inDominatingLoop: the call sits in a loop whose exit dominates target
 // (phase-1 stanza loop of Identity.Unwrap).
-func inDominatingLoop(fn *ssa.Function, c ssa.CallInstruction, target *ssa.BasicBlock) bool {
+func inDominatingLoop(p *Program, fn *ssa.Function, c ssa.CallInstruction, target *ssa.BasicBlock) bool {
 	for _, l := range rangeLoops(fn) {
-		if l.inLoop(c.Block()) && (l.Exit == target || l.Exit.Dominates(target)) {
+		if l.inLoop(c.Block()) && p.feasDominates(l.Exit, target) {
 			return len(l.earlyExits()) == 0
 		}
 	}
@@ -585,7 +606,7 @@ func phase1Seq(p *Program, fn *ssa.Function, loop *natLoop) ([]string, bool) {
 		if writeLabel(tb, nil, c) == "" || loop.Blocks[c.Block()] {
 			continue
 		}
-		if c.Block().Dominates(loop.Header) || inDominatingLoop(fn, c, loop.Header) {
+		if p.feasDominates(c.Block(), loop.Header) || inDominatingLoop(p, fn, c, loop.Header) {
 			writes = append(writes, c)
 		}
 	}
